@@ -381,10 +381,11 @@ class Initiator(DataExchangeProtocol):
         return bytearray(frame)
 
     def decode_frame(self, frame):
-        if self.target.brty == '106A' and frame.pop(0) != 0xF0:
-            error = "first NFC-DEP frame byte must be F0h for 106A"
-            raise nfc.clf.ProtocolError(error)
-        if len(frame) != frame.pop(0):
+        if self.target.brty == '106A':
+            if len(frame) == 0 or frame.pop(0) != 0xF0:
+                error = "first NFC-DEP frame byte must be F0h for 106A"
+                raise nfc.clf.ProtocolError(error)
+        if len(frame) == 0 or len(frame) != frame.pop(0):
             error = "NFC-DEP frame length byte must be data length + 1"
             raise nfc.clf.ProtocolError(error)
         if len(frame) < 2:
@@ -655,10 +656,11 @@ class Target(DataExchangeProtocol):
         return bytearray(frame)
 
     def decode_frame(self, frame):
-        if self.target.brty == '106A' and frame.pop(0) != 0xF0:
-            error = "first NFC-DEP frame byte must be F0h for 106A"
-            raise nfc.clf.ProtocolError(error)
-        if len(frame) != frame.pop(0):
+        if self.target.brty == '106A':
+            if len(frame) == 0 or frame.pop(0) != 0xF0:
+                error = "first NFC-DEP frame byte must be F0h for 106A"
+                raise nfc.clf.ProtocolError(error)
+        if len(frame) == 0 or len(frame) != frame.pop(0):
             error = "NFC-DEP frame length byte must be data length + 1"
             raise nfc.clf.ProtocolError(error)
         if len(frame) < 2:
